@@ -61,6 +61,10 @@ def check(repo, res, tier):
     res.rule('C08.A13', 'adopted C16.K2: the planned start an observation is held to is the configured one divided by the unit '
                         'factor, not rounded (else it can begin before its planned start)')
     _borrow(repo, res, tier, _c16, {'C16.K2'}, 'C08.A13')
+    from . import c13 as _c13
+    res.rule('C08.A14', 'the per-observation loop of Telescope.run examines every observation in every step (no break / return: '
+                        'the plan need not be sorted by start time)')
+    _c13.obs_loop_clause(repo, res, 'C08.A14', 'it is neither started when it falls due nor finished when its duration is over')
     from . import initial
     res.rule('C08.A12', 'initial state: no arrays in use, telescope not in use, no ingest machine reserved, an observation has no actual start time')
     initial.check_values(repo, res, 'C08.A12', [('Telescope', 'telescope_use', 0), ('Telescope', 'telescope_status', False),
@@ -207,9 +211,34 @@ def predicates(repo, res, canon, pc, logic, plogic):
     res.analysed(f, len(outs))
     obs, pipes, mx = f.params[1], f.params[2], f.params[3]
     dem = "%s[%s.name]['ingest_demand']" % (pipes, obs)
+    cluster_alts = [Lit('truthy(Cluster.check_ingest_capacity(%s, %s))' % (dem, mx), True)]
+    pending_alts = [lit_le(Affine({'Scheduler.provision_ingest': 1, dem: 1}), mx)]
+    # the cluster question may carry more than (demand, limit): the same call with further arguments is still the
+    # cluster check, and a pending count handed over in it moves the "pending + demand <= max" test into the cluster
+    # method -- accepted when every admitting path THERE makes that test on the parameter that receives it
+    cfun = repo.func('Cluster.check_ingest_capacity')
+    ffr = Frame(f)
+    for cnode in [n for n in walk_no_nested(f.node) if isinstance(n, ast.Call) and call_name(n) == 'check_ingest_capacity'
+                  and isinstance(n.func, ast.Attribute) and pc.p(n.func.value, ffr) in ('Cluster', 'Scheduler.cluster')]:
+        a_ = bound_args(repo, 'Cluster.check_ingest_capacity', cnode, ffr)
+        if a_ is None or pc.p(a_.get(cfun.params[1]), ffr) != dem or pc.p(a_.get(cfun.params[2]), ffr) != mx:
+            continue
+        d0 = plogic.dnf(cnode, ffr, True, depth=0)
+        if len(d0) != 1 or len(d0[0]) != 1:
+            continue
+        cl = d0[0][0]
+        if cl not in cluster_alts:
+            cluster_alts.append(cl)
+        for pn, av in a_.items():
+            if pn in (cfun.params[1], cfun.params[2]) or av is None or pc.p(av, ffr) != 'Scheduler.provision_ingest':
+                continue
+            want_ = lit_le(Affine({pn: 1, cfun.params[1]: 1}), cfun.params[2])
+            couts = [o for o in outcomes(plogic, cfun) if o.result == 'T']
+            if couts and all(want_ in o.lits for o in couts):
+                pending_alts.append(cl)
     req = [('buffer check', [Lit('truthy(Buffer.check_buffer_capacity(%s))' % obs, True)]),
-           ('cluster check', [Lit('truthy(Cluster.check_ingest_capacity(%s, %s))' % (dem, mx), True)]),
-           ('pending + demand <= max', [lit_le(Affine({'Scheduler.provision_ingest': 1, dem: 1}), mx)])]
+           ('cluster check', cluster_alts),
+           ('pending + demand <= max', pending_alts)]
     judge(res, 'C08.A3', f, outs, req)
     # reservation on the admitting path
     n_t = n_res = 0
@@ -262,11 +291,18 @@ def capacity_pred(repo, res, canon, q):
     n = 0
     for p in cached_paths(f):
         env = {}
+        exprs = {}          # local -> the comparison it was last bound to on this path
         for e in p.events:
             if e.kind == 'stmt' and isinstance(e.node, ast.Assign) and isinstance(e.node.targets[0], ast.Name):
-                env[e.node.targets[0].id] = affine(canon, e.node.value, fr, env)
+                if isinstance(e.node.value, (ast.Compare, ast.UnaryOp)):
+                    exprs[e.node.targets[0].id] = (e.node.value, dict(env))
+                else:
+                    exprs.pop(e.node.targets[0].id, None)
+                    env[e.node.targets[0].id] = affine(canon, e.node.value, fr, env)
             if e.kind == 'stmt' and isinstance(e.node, ast.Return) and e.node.value is not None:
                 v = e.node.value
+                if isinstance(v, ast.Name) and v.id in exprs:      # verdict = <test>; return verdict
+                    v, env = exprs[v.id]
                 n += 1
                 neg = False
                 while isinstance(v, ast.UnaryOp) and isinstance(v.op, ast.Not):
@@ -336,13 +372,17 @@ def a6(repo, res, canon, pc):
                 canon.c(n.value, fr) == "Cluster._resources['available']":
             src_ok = True
     gen = [n for n in walk_no_nested(f.node) if isinstance(n, ast.Call) and call_name(n) == '_generate_ingest_tasks']
-    gen_ok = bool(gen) and canon.c(gen[0].args[0], fr) == dparam
     g = repo.func('Cluster._generate_ingest_tasks')
-    gdem = g.params[0] if any('staticmethod' in d for d in g.decorators) else g.params[1]
     iters = [n.iter for n in walk_no_nested(g.node) if isinstance(n, ast.For)] + [
         c.iter for n in walk_no_nested(g.node) if isinstance(n, (ast.ListComp, ast.GeneratorExp)) for c in n.generators]
+    # the parameter that decides how many tasks are made (whatever its position), and what the call hands in for it
     rng = [it for it in iters if isinstance(it, ast.Call) and call_name(it) == 'range' and len(it.args) == 1 and
-           canon.c(it.args[0], Frame(g)) == gdem]
+           isinstance(it.args[0], ast.Name) and it.args[0].id in g.params]
+    gen_ok = False
+    if gen and rng:
+        a_ = bound_args(repo, 'Cluster._generate_ingest_tasks', gen[0], fr)
+        v_ = a_.get(rng[0].args[0].id)
+        gen_ok = v_ is not None and canon.c(v_, fr) == dparam
     okk = src_ok and gen_ok and bool(rng)
     (res.ok if okk else res.bad)('C08.A6', f, None, 'exactly `demand` machines (available[:demand]) paired with `demand` ingest tasks',
                                  'ok' if okk else 'ingest no longer takes exactly `demand` machines from the available pool '
